@@ -809,3 +809,33 @@ Proof.
   exists tr. split; [reflexivity|].
   apply gen_helpers_refine_Kin; [exact (nodupb_NoDup _ H1)|exact E|exact (nodupb_NoDup _ H2)].
 Qed.
+
+Lemma rev_last_head (p : list Z) : p <> [] -> rev p = last p 0 :: rev (removelast p).
+Proof.
+  intros Hne. rewrite (app_removelast_last 0 Hne) at 1. rewrite rev_app_distr. reflexivity.
+Qed.
+
+(** closed form of __get_boost_chain_ids on the isobar tree: the path from the root to the state, top-down, without the
+    root edge (the initial state) *)
+Theorem gen_boost_chain_is_tree_path t tr x p fuel : wf_ids t -> tree_of_topo t = Some tr ->
+  gen_assert_isobar_topology t = Ok tt -> path_up tr x = Some p -> (length p < fuel)%nat ->
+  gen_get_boost_chain_ids fuel t x = Ok (rev (removelast p)).
+Proof.
+  intros Hwf Ht Ha Hp Hf.
+  pose proof (gen_decay_chain_is_tree_path t tr x p fuel Hwf Ht Ha Hp Hf) as Hc.
+  destruct (tree_of_topo_embeds _ _ Ht) as (e0 & Hin & Ho & Hemb).
+  pose proof (embeds_links t Hwf _ _ Hemb) as Hl.
+  destruct (path_up_spec t tr x p Hl Hp) as (_ & Hla & Hlk).
+  assert (Hne : p <> []) by (destruct p; [contradiction|discriminate]).
+  assert (Hinc : topo_incoming_edge_ids t = [eid tr]).
+  { unfold topo_incoming_edge_ids. unfold tree_of_topo in Ht.
+    destruct (filter (fun e => oZ_eqb (re_orig e) None) (rt_edges t)) as [|y [|? ?]] eqn:Hfl; try discriminate.
+    destruct (re_end y) eqn:Hey; [|discriminate].
+    assert (Hy : embeds (rt_edges t) y tr).
+    { eapply build_embeds; [|exact Ht].
+      assert (In y (filter (fun e => oZ_eqb (re_orig e) None) (rt_edges t))) by (rewrite Hfl; now left).
+      apply filter_In in H. tauto. }
+    rewrite (embeds_eid _ _ _ Hy). reflexivity. }
+  unfold gen_get_boost_chain_ids. rewrite Hc. cbn [bind]. rewrite Hinc. cbn [py_next_iter bind].
+  rewrite (rev_last_head p Hne), Hla. cbn [py_remove]. rewrite Z.eqb_refl. reflexivity.
+Qed.
